@@ -264,7 +264,7 @@ package fp
 //@ 		return verifspec.Forall(func(j int) bool { return !(a <= j && j < n) || !p(verifspec.IterAt[T](r, j)) })
 //@ 	}
 //@ 	if !h1 {
-//@ 		return Panics(it.Next()) && verifspec.IterPos(r) == p1
+//@ 		return mode == 2 || (Panics(it.Next()) && verifspec.IterPos(r) == p1)
 //@ 	}
 //@ 	v := it.Next()
 //@ 	if mode == 1 {
@@ -280,6 +280,9 @@ package fp
 //@   tag hasNext
 //@   ensures iterFilterStep(r, p, 1)
 //@   tag next
+//
+//@ lemma iterFilterLazy[T any](r Iterator[T], p func(T) bool)
+//@   prop C12
 //@   ensures iterFilterStep(r, p, 2)
 //@   tag next-bounded-lookahead
 //
@@ -340,10 +343,20 @@ package fp
 //@   ensures n > IterLen(r) ==> IterPos(r) == IterLen(r)
 //@   ensures IterLen(result) == IterLen(r) && IterPos(result) == IterPos(r) && (forall j int :: Eq(verifspec.IterAt[T](result, j), verifspec.IterAt[T](r, j)))
 //@   tag result-is-source
-//@   ensures IterPos(r) == 0
-//@   tag lazy-construction
 //@   loop 0 invariant 0 <= i && i < n && IterPos(r) == i && i < IterLen(r)
 //@   loop 0 decreases n - i
+//
+//@ ghost
+//@ func iterDropLazyOK[T any](r Iterator[T], n int) bool {
+//@ 	it := r.Drop(n)
+//@ 	return it.hasNext != nil && verifspec.IterPos(r) == 0
+//@ }
+//@ end
+//
+//@ lemma iterDropLazy[T any](r Iterator[T], n int)
+//@   prop C12
+//@   ensures iterDropLazyOK(r, n)
+//@   tag lazy-construction
 //
 //@ func (Iterator).Foreach(r, p)
 //@   prop C12
